@@ -1,6 +1,6 @@
 (* C09 — level_limit yields the quotient graph and preserves verdicts above the limit. *)
-From Coq Require Import List Bool NArith.
-From PTA Require Import Names Graph Search Rule SpecRule Scan NamesProofs SearchProofs RuleProofs GraphProofs ScanProofs.
+From Coq Require Import List Bool NArith Lia.
+From PTA Require Import Names Graph Search Rule SpecRule Scan NamesProofs SearchProofs RuleProofs GraphProofs ScanProofs QuotientProofs.
 Import ListNotations.
 
 (* modules of the limited architecture = truncated names of the full one *)
@@ -30,6 +30,41 @@ Theorem C09_effective_limit : forall (comp : Type) (c : @scan_cfg comp) k,
 Proof. intros comp c k H. unfold effective_limit. rewrite H. reflexivity. Qed.
 Print Assumptions C09_effective_limit.
 
+(* "Consequently": a rule of C01's space (subjects and objects pairwise unrelated, all named modules existing)
+   whose named modules lie at or above level k and whose 'sub modules of' parents lie strictly above it
+   ([above k f]: length of the name, plus one for a 'sub modules of' filter, is at most k+1)
+   has the same verdict on the flattened and on the full architecture, and is never an error there.
+   Hypothesis beyond the property's wording: no module imports one of its own descendants
+   (needs a file and a directory of the same name in a scanned project); C09_down_import_refuted
+   shows it cannot be dropped: truncation turns parent -> deep descendant into a hierarchy pair. *)
+Theorem C09_verdict_preserved :
+  forall (comp : Type) (ceqb : comp -> comp -> bool), (forall x y, reflect (x = y) (ceqb x y)) ->
+  forall (rmatch : N -> list comp -> bool) k mods imports,
+  (forall x y, In (x, y) imports -> In x (build_nodes ceqb None mods imports) /\ In y (build_nodes ceqb None mods imports)) ->
+  (forall x y, In (x, y) imports -> prefixb ceqb x y = false) ->
+  forall v imp exc Ss Os,
+  strict ceqb (build_graph ceqb mods imports None) Ss Os ->
+  (forall f, In f (Ss ++ Os) -> above k f) ->
+  (verdict ceqb rmatch (build_graph ceqb mods imports (Some k)) (mk_cfg v imp exc Ss Os) = Pass <->
+   verdict ceqb rmatch (build_graph ceqb mods imports None) (mk_cfg v imp exc Ss Os) = Pass) /\
+  is_err (verdict ceqb rmatch (build_graph ceqb mods imports (Some k)) (mk_cfg v imp exc Ss Os)) = false.
+Proof. exact @verdict_preserved. Qed.
+Print Assumptions C09_verdict_preserved.
+
+(* the documented semantics themselves do not see the truncation *)
+Theorem C09_semantics_preserved :
+  forall (comp : Type) (ceqb : comp -> comp -> bool), (forall x y, reflect (x = y) (ceqb x y)) ->
+  forall k mods imports,
+  (forall x y, In (x, y) imports -> In x (build_nodes ceqb None mods imports) /\ In y (build_nodes ceqb None mods imports)) ->
+  (forall x y, In (x, y) imports -> prefixb ceqb x y = false) ->
+  forall v imp exc Ss Os,
+  pw_unrel ceqb (map fid (Ss ++ Os)) ->
+  (forall f, In f (Ss ++ Os) -> above k f) ->
+  spec_holds ceqb (build_graph ceqb mods imports (Some k)) v imp exc Ss Os =
+  spec_holds ceqb (build_graph ceqb mods imports None) v imp exc Ss Os.
+Proof. exact @spec_quotient. Qed.
+Print Assumptions C09_semantics_preserved.
+
 (* K1 (known finding): verdict preservation is FALSE for a rule whose subject and object are related:
    'proj.p should import proj.p.a' with the single import p.a.x -> p.a.w passes on the full architecture
    and fails with level_limit = 2 (the witnessing import becomes a self edge of p.a) *)
@@ -44,3 +79,45 @@ Proof.
   split; [vm_compute; reflexivity|vm_compute; discriminate].
 Qed.
 Print Assumptions C09_related_refuted.
+
+(* the extra hypothesis of C09_verdict_preserved cannot be dropped: [1] imports its own deep descendant [1;2;3];
+   '[1;2] should be imported by modules except [1;4]' passes on the full graph; with k = 1 the import becomes
+   the hierarchy pair [1] -> [1;2] and the rule fails.  Subjects and objects are unrelated and above the limit. *)
+Theorem C09_down_import_refuted :
+  exists (mods : list (list N)) imports k c,
+    verdict N.eqb (fun _ _ => false) (build_graph N.eqb mods imports None) c = Pass /\
+    verdict N.eqb (fun _ _ => false) (build_graph N.eqb mods imports (Some k)) c <> Pass.
+Proof.
+  exists [[1]; [1;2]; [1;2;3]; [1;4]], [([1], [1;2;3])], 1%nat,
+         (mk_cfg Should false true [Named [1;2]] [Named [1;4]]).
+  split; [vm_compute; reflexivity|vm_compute; discriminate].
+Qed.
+Print Assumptions C09_down_import_refuted.
+
+(* non-vacuity of C09_verdict_preserved: a 7-module project, 3 imports, k = 1, a strict rule above the limit,
+   and the verdict indeed coincides (fails on both: [1;3] is imported by [1;2;5] only through truncation-stable pairs) *)
+Definition ex9_mods : list (list N) := [[1]; [1;2]; [1;2;5]; [1;2;5;6]; [1;3]; [1;3;7]; [1;4]].
+Definition ex9_imps : list (list N * list N) := [([1;2;5;6], [1;3;7]); ([1;3;7], [1;4]); ([1;4], [1;2;5])].
+Definition ex9_Ss : list (@filt N) := [Named [1;2]; SubOf [1;4]].
+Definition ex9_Os : list (@filt N) := [Named [1;3]].
+Example C09_example :
+  (forall x y, In (x, y) ex9_imps -> In x (build_nodes N.eqb None ex9_mods ex9_imps) /\ In y (build_nodes N.eqb None ex9_mods ex9_imps)) /\
+  (forall x y, In (x, y) ex9_imps -> prefixb N.eqb x y = false) /\
+  strict N.eqb (build_graph N.eqb ex9_mods ex9_imps None) ex9_Ss ex9_Os /\
+  (forall f, In f (ex9_Ss ++ ex9_Os) -> above 2 f) /\
+  verdict N.eqb (fun _ _ => false) (build_graph N.eqb ex9_mods ex9_imps (Some 2%nat)) (mk_cfg Should true false [Named [1;2]] ex9_Os) = Pass /\
+  verdict N.eqb (fun _ _ => false) (build_graph N.eqb ex9_mods ex9_imps (Some 2%nat)) (mk_cfg ShouldNot false true ex9_Ss ex9_Os) <> Pass.
+Proof.
+  split; [|split; [|split; [|split; [|split]]]].
+  - intros x y H. simpl in H. repeat (destruct H as [H|H]; [injection H as <- <-; vm_compute; intuition congruence|]). destruct H.
+  - intros x y H. simpl in H. repeat (destruct H as [H|H]; [injection H as <- <-; reflexivity|]). destruct H.
+  - constructor.
+    + intros a b H. vm_compute in H. repeat (destruct H as [H|H]; [injection H as <- <-; vm_compute; intuition congruence|]). destruct H.
+    + intros f H. simpl in H. repeat (destruct H as [<-|H]; [reflexivity|]). destruct H.
+    + simpl. repeat split; intros y Hy; simpl in Hy; repeat (destruct Hy as [<-|Hy]; [reflexivity|]); destruct Hy.
+    + discriminate.
+    + discriminate.
+  - intros f H. simpl in H. unfold above. repeat (destruct H as [<-|H]; [simpl; lia|]). destruct H.
+  - vm_compute. reflexivity.
+  - vm_compute. discriminate.
+Qed.
